@@ -13,6 +13,8 @@ NAN = float("nan")
 
 
 def _h(seed, tag, arr):
+    arr = numpy.array(arr, dtype=numpy.float64)
+    arr[numpy.isnan(arr)] = numpy.nan      # one canonical NaN: the model cannot see NaN payloads
     b = hashlib.sha256(repr((seed, tag)).encode() + numpy.ascontiguousarray(arr, dtype=numpy.float64).tobytes())
     return int.from_bytes(b.digest()[:8], "little")
 
@@ -23,13 +25,14 @@ class FnTarget(_AbstractDistribution):
     handed to the Coq model.  Values may be NaN/inf/huge according to the palettes."""
 
     def __init__(self, dimensions, seed=0, misfit_palette=None, grad_palette=None,
-                 special_rate=0.15, lower=None, upper=None):
+                 special_rate=0.15, lower=None, upper=None, glog=None):
         self.dimensions = dimensions
         self.seed = seed
         self.special_rate = special_rate
         self.misfit_palette = misfit_palette or [NAN, INF, -INF, 1e300, -1e300]
         self.grad_palette = grad_palette or [NAN, INF, -INF, 1e200, 0.0]
         self.log = []
+        self.glog = glog if glog is not None else []
         self.fault = None      # callable(kind, index) raising at chosen call boundaries
         self.ncalls = 0
         if lower is not None or upper is not None:
@@ -60,15 +63,23 @@ class FnTarget(_AbstractDistribution):
     def misfit(self, m):
         self._tick("misfit")
         v = self.misfit_value(m)
-        self.log.append(("misfit", [float(t) for t in numpy.asarray(m).flatten()], v))
+        a = [float(t) for t in numpy.asarray(m).flatten()]
+        self.log.append(("misfit", a, v))
+        self.glog.append((0, a, []))
         return v
 
     def gradient(self, m):
         self._tick("gradient")
         g = self.gradient_value(m)
-        self.log.append(("gradient", [float(t) for t in numpy.asarray(m).flatten()],
-                         [float(t) for t in g.flatten()]))
+        a = [float(t) for t in numpy.asarray(m).flatten()]
+        self.log.append(("gradient", a, [float(t) for t in g.flatten()]))
+        self.glog.append((1, a, []))
         return g
+
+    def corrector(self, coordinates, momentum):
+        self._tick("corrector")
+        self.glog.append((4, [float(t) for t in coordinates.flatten()], [float(t) for t in momentum.flatten()]))
+        return super().corrector(coordinates, momentum)
 
     def generate(self, repeat=1, rng=None):
         raise NotImplementedError()
@@ -123,8 +134,9 @@ class FnMass(_AbstractMassMatrix):
     """Mass matrix whose kinetic energy is a hash-function of the momentum bits; gradient is a
     fixed diagonal scaling so trajectories stay simple.  Logs every call."""
 
-    def __init__(self, dimensions, seed=0, inv_diag=None, special_rate=0.1):
+    def __init__(self, dimensions, seed=0, inv_diag=None, special_rate=0.1, glog=None):
         self.dimensions = dimensions
+        self.glog = glog if glog is not None else []
         self.name = "scripted mass matrix"
         self.seed = seed
         self.special_rate = special_rate
@@ -149,27 +161,35 @@ class FnMass(_AbstractMassMatrix):
     def kinetic_energy(self, momentum):
         self._tick("kinetic_energy")
         v = self.kinetic_value(momentum)
-        self.log.append(("kinetic_energy", [float(t) for t in momentum.flatten()], v))
+        a = [float(t) for t in momentum.flatten()]
+        self.log.append(("kinetic_energy", a, v))
+        self.glog.append((3, a, []))
         return v
 
     def kinetic_energy_gradient(self, momentum, position=None, g=None):
         self._tick("kinetic_energy_gradient")
         out = self.inv_diag * momentum
-        self.log.append(("kinetic_energy_gradient", [float(t) for t in momentum.flatten()],
-                         [float(t) for t in out.flatten()]))
+        a = [float(t) for t in momentum.flatten()]
+        self.log.append(("kinetic_energy_gradient", a, [float(t) for t in out.flatten()]))
+        self.glog.append((2, a, []))
         return out
 
     def generate_momentum(self):
         self._tick("generate_momentum")
         z = self.rng.normal(size=(self.dimensions, 1))
         self.log.append(("generate_momentum", [], [float(t) for t in numpy.asarray(z).flatten()]))
+        self.glog.append((6, [], []))
         return z
 
     def accept(self):
+        self._tick("accept")
         self.log.append(("accept", [], None))
+        self.glog.append((7, [], []))
 
     def reject(self):
+        self._tick("reject")
         self.log.append(("reject", [], None))
+        self.glog.append((8, [], []))
 
     @property
     def matrix(self):
@@ -180,9 +200,10 @@ class ExpProxy:
     """Replacement for the module attribute `_numpy` of hmclab.Samplers: forwards everything to
     numpy and logs (x, exp(x)) pairs so that the model's exp table is the implementation's."""
 
-    def __init__(self):
+    def __init__(self, glog=None):
         self._np = numpy
         self.exp_log = []
+        self.glog = glog if glog is not None else []
 
     def __getattr__(self, name):
         return getattr(self._np, name)
@@ -191,6 +212,7 @@ class ExpProxy:
         v = self._np.exp(x)
         try:
             self.exp_log.append((float(x), float(v)))
+            self.glog.append((5, [float(x)], []))
         except TypeError:
             pass
         return v
